@@ -246,7 +246,7 @@ func c05(w *core.World, r *core.Report) {
 				empty := false
 				cont := false
 				for _, fct := range p.Conds {
-					cm, okc := core.AsCmp(fct.Cond, fct.Val)
+					cm, okc := core.FactCmp(fct)
 					if !okc {
 						continue
 					}
@@ -424,37 +424,49 @@ func ruleGcRespectsRefs(w *core.World, r *core.Report) {
 				continue
 			}
 			n++
-			closed := core.HoldsInto(st.Block(), func(fs []core.Fact) bool {
-				for _, fct := range fs {
-					if fct.Val && isResultOf("(*syncer.appendBlob).isClosed", -1)(fct.Cond) {
-						return true
+			// on every path of the function that does the removal (the collector, or a helper written for
+			// it) the three conditions have been established before the store
+			closed, unref, notCur := true, true, true
+			paths := 0
+			g := st.Parent()
+			okEnum := core.EnumPathsN(g.Blocks[0], 0, 200000, 2, func(p *core.Path) {
+				on := false
+				for _, pi := range p.Instrs {
+					if pi == ssa.Instruction(st) {
+						on = true
 					}
 				}
-				return false
-			})
-			unref := core.HoldsInto(st.Block(), func(fs []core.Fact) bool {
-				for _, fct := range fs {
-					if c, ok := core.AsCmp(fct.Cond, fct.Val); ok && c.Op == token.EQL && isConstInt(0)(c.Y) && isResultOf("(*sync/atomic.Int32).Load", -1)(c.X) {
-						return true
-					}
+				if !on {
+					return
 				}
-				return false
-			})
-			notCur := name == "segments" || core.HoldsInto(st.Block(), func(fs []core.Fact) bool {
-				for _, fct := range fs {
-					c, ok := core.AsCmp(fct.Cond, fct.Val)
+				paths++
+				c1, c2, c3 := false, false, name == "segments"
+				for _, fct := range factsBefore(p, st) {
+					cond := p.Resolve(fct.Cond)
+					if fct.Val && isResultOf("(*syncer.appendBlob).isClosed", -1)(cond) {
+						c1 = true
+					}
+					c, ok := core.FactCmp(fct)
 					if !ok {
 						continue
 					}
-					if c.Op == token.NEQ && isResultOf("(*syncer.MemoryAofWriter).currentSegment", -1)(c.Y) {
-						return true
+					x, y := p.Resolve(c.X), p.Resolve(c.Y)
+					if c.Op == token.EQL && isConstInt(0)(y) && isResultOf("(*sync/atomic.Int32).Load", -1)(x) {
+						c2 = true
 					}
-					if c.Op == token.EQL && core.IsNilConst(c.Y) && core.IsFieldLoad(core.Unwrap(c.X), "MemoryChannel", "aofWriter") {
-						return true
+					if c.Op == token.NEQ && (isResultOf("(*syncer.MemoryAofWriter).currentSegment", -1)(y) || isResultOf("(*syncer.MemoryAofWriter).currentSegment", -1)(x)) {
+						c3 = true
+					}
+					if c.Op == token.EQL && core.IsNilConst(y) && core.IsFieldLoad(core.Unwrap(x), "MemoryChannel", "aofWriter") {
+						c3 = true
 					}
 				}
-				return false
+				closed, unref, notCur = closed && c1, unref && c2, notCur && c3
 			})
+			if !okEnum || paths == 0 {
+				r.Undecided("MemoryChannel.gcLocked/"+name, st.Pos(), "paths to the removal could not be enumerated (%d)", paths)
+				continue
+			}
 			r.Check(closed && unref && notCur, "MemoryChannel.gcLocked/"+name, st.Pos(), "a segment may be collected only when its blob is closed (%v), no reader holds it (%v) and it is not the writer's current segment (%v)", closed, unref, notCur)
 		}
 		if n < 2 {
@@ -469,7 +481,7 @@ func ruleGcRespectsRefs(w *core.World, r *core.Report) {
 			isRdb := core.DependsOn(s.Args()[0], isResultOf("pkg/store.rdbFilePath", -1))
 			ok := false
 			for _, fct := range core.FactsAt(s.Instr.Block()) {
-				c, okc := core.AsCmp(fct.Cond, fct.Val)
+				c, okc := core.FactCmp(fct)
 				if !okc {
 					continue
 				}
@@ -595,7 +607,7 @@ func ruleSnapshotOffer(w *core.World, r *core.Report) {
 				// true: on the "no log yet" path, or where the comparison of the contiguous log's left edge
 				// with the snapshot offset held
 				for _, fct := range p.Conds {
-					if c, ok := core.AsCmp(fct.Cond, fct.Val); ok && c.Op == token.EQL && isConstInt(0)(c.Y) {
+					if c, ok := core.FactCmp(fct); ok && c.Op == token.EQL && isConstInt(0)(c.Y) {
 						joined = true
 					}
 					if b, ok := core.Unwrap(p.Resolve(fct.Cond)).(*ssa.BinOp); ok && fct.Val && (b.Op == token.LEQ || b.Op == token.EQL) && fieldNameOfLoad(b.X) == "left" && fieldNameOfLoad(b.Y) == "left" {
@@ -698,7 +710,7 @@ func ruleJointUnderGc(w *core.World, r *core.Report) {
 			// snapshot kept because referenced: rwRef.Load() == 0 assumed false
 			pinned := false
 			for _, fct := range p.Conds {
-				c, ok := core.AsCmp(fct.Cond, fct.Val)
+				c, ok := core.FactCmp(fct)
 				if ok && c.Op == token.NEQ && isConstInt(0)(c.Y) && isResultOf("(*sync/atomic.Int32).Load", -1)(p.Resolve(c.X)) {
 					// the load is of rdb.rwRef
 					if call, isC := p.Resolve(c.X).(*ssa.Call); isC {
@@ -757,7 +769,7 @@ func ruleJointUnderGc(w *core.World, r *core.Report) {
 				}
 			}
 			for _, fct := range p.Conds {
-				c, ok := core.AsCmp(fct.Cond, fct.Val)
+				c, ok := core.FactCmp(fct)
 				if !ok {
 					continue
 				}
@@ -835,12 +847,12 @@ func ruleRdbCommit(w *core.World, r *core.Report) {
 			isSize := func(v ssa.Value) bool { return core.IsFieldLoad(core.Unwrap(v), "RdbWriter", "rdbSize") }
 			okRen, okRem := false, false
 			for _, fct := range core.FactsAt(ren.Instr.Block()) {
-				if c, ok := core.AsCmp(fct.Cond, fct.Val); ok && c.Op == token.EQL && isPumped(c.X) && isSize(c.Y) {
+				if c, ok := core.FactCmp(fct); ok && c.Op == token.EQL && isPumped(c.X) && isSize(c.Y) {
 					okRen = true
 				}
 			}
 			for _, fct := range core.FactsAt(rem.Instr.Block()) {
-				if c, ok := core.AsCmp(fct.Cond, fct.Val); ok && c.Op == token.NEQ && isPumped(c.X) && isSize(c.Y) {
+				if c, ok := core.FactCmp(fct); ok && c.Op == token.NEQ && isPumped(c.X) && isSize(c.Y) {
 					okRem = true
 				}
 			}
@@ -908,10 +920,14 @@ func ruleScan(w *core.World, r *core.Report) {
 	f := fn(w, r, "(*pkg/store.Storer).initDataSet")
 	if f != nil {
 		okConst := false
-		okSize := false
+		okSize := true
+		nSizeFuncs := 0
 		nScanSites, nScanFalse := 0, 0
-		for _, g := range core.DeepFuncs(f) {
+		for _, g := range reachableFuncs(f) {
 			for _, s := range core.SitesNamed(g, false, "pkg/store.ParseRdbFile") {
+				if s.Instr.Parent() != g {
+					continue
+				}
 				nScanSites++
 				if b, isB := core.ConstBool(s.Args()[1]); isB && !b {
 					nScanFalse++
@@ -927,13 +943,17 @@ func ruleScan(w *core.World, r *core.Report) {
 				b, isB := c.Call.Value.(*ssa.Builtin)
 				return isB && b.Name() == "append" && strings.HasSuffix(c.Type().String(), "dataSetAof")
 			}
-			has := false
+			has, scans := false, false
 			for _, in := range core.OwnInstrs(g) {
 				if isAppend(in) {
 					has = true
 				}
+				if c, isC := in.(*ssa.Call); isC && c.Call.IsInvoke() && c.Call.Method.Name() == "Size" && strings.HasSuffix(c.Call.Value.Type().String(), "FileInfo") {
+					scans = true
+				}
 			}
-			if has {
+			if has && scans {
+				nSizeFuncs++
 				all, n := true, 0
 				core.EnumPaths(g.Blocks[0], 0, 100000, func(p *core.Path) {
 					indexed := false
@@ -956,9 +976,10 @@ func ruleScan(w *core.World, r *core.Report) {
 						all = false
 					}
 				})
-				okSize = all && n > 0
+				okSize = okSize && all && n > 0
 			}
 		}
+		okSize = okSize && nSizeFuncs > 0
 		okConst = nScanSites > 0 && nScanFalse == nScanSites
 		r.Check(okConst, "initDataSet/ignores-temporary-snapshots", f.Pos(), "the scan must not accept '*.rdb.tmp' files (ParseRdbFile(name, false))")
 		r.Check(okSize, "initDataSet/ignores-empty-segments", f.Pos(), "a segment must be indexed only when it holds data (size > 0)")
@@ -1170,7 +1191,7 @@ func ruleVerifyOnOpen(w *core.World, r *core.Report) {
 			}
 			sizeOK, crcOK := false, false
 			for _, fct := range p.Conds {
-				c, ok := core.AsCmp(fct.Cond, fct.Val)
+				c, ok := core.FactCmp(fct)
 				if !ok || c.Op != token.EQL {
 					continue
 				}
@@ -1283,10 +1304,21 @@ func ruleCloseAof(w *core.World, r *core.Report) {
 		core.Dominates(put64, seek) && core.Dominates(put32, seek) && core.Dominates(seek, write)
 	// Sync and Close happen in the closure called after the write
 	syncAfter := false
-	for _, g := range core.DeepFuncs(f)[1:] {
-		if len(core.SitesNamed(g, false, "(*os.File).Sync")) > 0 && len(core.SitesNamed(g, false, "(*os.File).Close")) > 0 {
-			for _, s := range core.Sites(f, false) {
-				if s.Callee == g && write != nil && core.Dominates(write, s.Instr) {
+	for _, s := range core.Sites(f, false) {
+		g := s.Callee
+		if g == nil || len(g.Blocks) == 0 || write == nil {
+			continue
+		}
+		// a closure or a method that syncs and closes the file, called after the write
+		if len(core.SitesNamed(g, false, "(*os.File).Sync")) > 0 && len(core.SitesNamed(g, false, "(*os.File).Close")) > 0 && core.Dominates(write, s.Instr) {
+			syncAfter = true
+		}
+	}
+	if !syncAfter && write != nil {
+		// or inline: Write ≺ Sync ≺ Close
+		for _, sy := range core.SitesNamed(f, false, "(*os.File).Sync") {
+			for _, cl := range core.SitesNamed(f, false, "(*os.File).Close") {
+				if core.Dominates(write, sy.Instr) && core.Dominates(sy.Instr, cl.Instr) {
 					syncAfter = true
 				}
 			}
